@@ -233,9 +233,21 @@ Definition prefix_of (p s : string) : bool := String.prefix p s.
 Definition covering_names : list string :=
   ["ambient_noninterference_partial"; "rank_perm_invariant"; "pick_perm_invariant"; "verify_evidence_perm_invariant";
    "purge_perm_invariant"; "any_order_bool_perm_invariant"; "sorted_collect_perm_invariant";
-   "set_build_perm_invariant"]%string.
+   "set_build_perm_invariant"; "node_local_activity_invisible_partial"]%string.
+
+(** The syntactic rules of the translator and the theorem that justifies each ("" = justified by
+    syntax alone: a decoded protobuf message is a per-transaction value, not keeper memory).  An
+    auto rule the model does not know is NOT accepted. *)
+Definition auto_rules : list (string * string) :=
+  [("collect-then-sort", "sorted_collect_perm_invariant");   (* keys appended, then sorted by a total order *)
+   ("map-insert-only", "set_build_perm_invariant");          (* body only inserts into / deletes from a map *)
+   ("proto-message-receiver", "")]%string.
+
+Definition auto_ok (r : string) : bool :=
+  existsb (fun p => String.eqb r (fst p) &&
+                    (String.eqb (snd p) "" || existsb (String.eqb (snd p)) covering_names)) auto_rules.
 
 Definition classified (s : Gen.C08.site) : bool :=
-  negb (String.eqb (Gen.C08.s_auto s) "") ||
+  auto_ok (Gen.C08.s_auto s) ||
   prefix_of "benign:" (Gen.C08.s_class s) ||
   existsb (fun n => String.eqb (Gen.C08.s_class s) ("lemma:" ++ n)) covering_names.
